@@ -148,6 +148,20 @@ def strat_direct(tier):
   return s()
 
 
+def decode_direct(fdp):
+  """bytes -> case for the coverage-guided engine (same domain as strat_direct, thorough bounds)."""
+  target = fdp.ConsumeIntInRange(1, 90)
+  ncols = fdp.ConsumeIntInRange(1, 4)
+  kind = ('list', 'tuple', 'array')[fdp.ConsumeIntInRange(0, 2)]
+  flags = fdp.ConsumeIntInRange(0, 3)
+  sizes = []
+  while fdp.remaining_bytes() and len(sizes) < 24:
+    b = fdp.ConsumeIntInRange(0, 255)
+    # low values are absolute sizes, high values are sizes relative to the target / its multiples
+    sizes.append(b if b < 81 else (max(0, target + (b % 5) - 2) if b < 200 else (b % 3) * target + (b % 2)))
+  return {'sizes': sizes, 'target': target, 'ncols': ncols, 'kind': kind, 'pad': bool(flags & 1), 'num_columns': bool(flags & 2)}
+
+
 # ------------------------------------------------------------------ through the pipeline
 def _colfn(kind):
   def add_one_million(*cols):
@@ -233,7 +247,9 @@ SCENARIOS = [
     Scenario('exhaustive_core', run_direct, enumerate=enum_direct,
              budget={'quick': 1, 'thorough': 1}, shards={'quick': 8, 'thorough': 16}),
     Scenario('hyp_direct', run_direct, strategy=strat_direct,
-             budget={'quick': 4000, 'thorough': 60000}, shards={'quick': 4, 'thorough': 16}),
+             budget={'quick': 4000, 'thorough': 60000}, shards={'quick': 4, 'thorough': 16},
+             decode=decode_direct, fuzz_runs={'quick': 8000, 'thorough': 600000},
+             instrument=('ml_metrics._src.utils.iter_utils',)),
     Scenario('pipeline', run_pipeline, strategy=strat_pipeline,
              budget={'quick': 2000, 'thorough': 30000}, shards={'quick': 4, 'thorough': 16}),
 ]
